@@ -4,6 +4,7 @@ import (
 	"fmt"
 	"go/ast"
 	"go/constant"
+	"go/parser"
 	"go/token"
 	"go/types"
 	"os"
@@ -1085,6 +1086,21 @@ func ruleFormattersKeepComments(c *Ctx, r *Repo, rule string) {
 		}
 		var src ast.Expr
 		switch calleeName(info, call) {
+		case "go/parser.ParseFile", "go/parser.ParseDir", "go/parser.ParseExprFrom":
+			// a formatter that parses the rendered file itself keeps the comments (marker, boilerplate, build
+			// constraint) only if the parser is told to: the mode is a constant with parser.ParseComments set
+			if len(call.Args) >= 4 {
+				mode := call.Args[len(call.Args)-1]
+				tv := info.Types[mode]
+				keeps := false
+				if tv.Value != nil {
+					if v, ok := constant.Uint64Val(constant.ToInt(tv.Value)); ok && v&uint64(parser.ParseComments) != 0 {
+						keeps = true
+					}
+				}
+				c.Check(keeps, rule, "formatter|parse-mode|"+g.Name.Name, r.Pos(call.Pos()), g.Name.Name+" parses the rendered file with comments", g.Name.Name+" parses the rendered file with mode "+types.ExprString(mode)+", which does not (provably) include parser.ParseComments: printing that tree drops every comment - the generated-code marker, the boilerplate and the //go:build line")
+			}
+			return true
 		case "go/format.Source":
 			nSource++
 			if len(call.Args) == 1 {
